@@ -152,7 +152,15 @@ impl CaseCtx {
     }
     pub fn sample_with(&mut self, f: impl FnOnce() -> Value) {
         if self.want_sample && self.sample.is_none() {
-            self.sample = Some(f());
+            let v = f();
+            if RENDER_MODE.load(std::sync::atomic::Ordering::Relaxed) {
+                // `vcheck render`: the written-out form is all that is wanted; stop before the code
+                // under test runs (it may crash or hang on this very input)
+                println!("RENDERED {}", serde_json::to_string(&v).unwrap_or_default());
+                let _ = std::io::stdout().flush();
+                std::process::exit(0);
+            }
+            self.sample = Some(v);
         }
     }
 }
@@ -1200,8 +1208,11 @@ pub fn one_main(check: &'static dyn Check, family: String, kind: String, data: S
 /// `vcheck render <prop> <family> <kind> <data>`: prints the written-out form of a case without
 /// exercising the code under test (checks that honour VCHECK_NO_COMPILE skip the compiler), so that a
 /// crashing input can be shown.
+pub static RENDER_MODE: std::sync::atomic::AtomicBool = std::sync::atomic::AtomicBool::new(false);
+
 pub fn render_main(check: &'static dyn Check, family: String, kind: String, data: String) -> i32 {
     std::env::set_var("VCHECK_NO_COMPILE", "1");
+    RENDER_MODE.store(true, std::sync::atomic::Ordering::Relaxed);
     install_panic_hook();
     run_in_big_stack(move || {
         let workdir = PathBuf::from(format!("{root}/work/render.{}", std::process::id(), root = verif_root()));
@@ -1238,15 +1249,41 @@ pub fn render_main(check: &'static dyn Check, family: String, kind: String, data
 }
 
 pub fn render_in_child(prop: &str, family: &str, kind: &str, data: &str) -> Option<Value> {
+    use std::io::Read;
     use std::process::{Command, Stdio};
     let exe = std::env::current_exe().ok()?;
-    let out = Command::new(exe)
+    static SEQ: std::sync::atomic::AtomicU64 = std::sync::atomic::AtomicU64::new(0);
+    let out_path = PathBuf::from(format!(
+        "{root}/work/render-out.{}.{}",
+        std::process::id(),
+        SEQ.fetch_add(1, std::sync::atomic::Ordering::Relaxed),
+        root = verif_root()
+    ));
+    let out_file = std::fs::File::create(&out_path).ok()?;
+    let mut child = Command::new(exe)
         .args(["render", prop, family, kind, data])
         .stdin(Stdio::null())
+        .stdout(out_file)
         .stderr(Stdio::null())
-        .output()
+        .spawn()
         .ok()?;
-    let text = String::from_utf8_lossy(&out.stdout).into_owned();
+    // a case that offers its sample only after running the code under test may hang here: bounded
+    let deadline = Instant::now() + Duration::from_secs(20);
+    loop {
+        match child.try_wait() {
+            Ok(Some(_)) => break,
+            Ok(None) if Instant::now() > deadline => {
+                let _ = child.kill();
+                let _ = child.wait();
+                break;
+            }
+            Ok(None) => std::thread::sleep(Duration::from_millis(10)),
+            Err(_) => break,
+        }
+    }
+    let mut text = String::new();
+    let _ = std::fs::File::open(&out_path).and_then(|mut f| f.read_to_string(&mut text));
+    let _ = std::fs::remove_file(&out_path);
     let line = text.lines().find_map(|l| l.strip_prefix("RENDERED "))?;
     serde_json::from_str(line).ok()
 }
